@@ -1,17 +1,19 @@
 (* TparseProofs.v -- bounded-read lemmas for the sub-scanners of the parser model
    (TparseModel.v): skip loops, word tests, parseIfCase, parseLoopAttributes, the
    inline-if attribute scanner, getOperation / parseValue / parseExpressions.
-   Every lemma has the form [post P r]: the call returns [Ok a] with [P a], or
-   fails ONLY with [EOob 10] (the IsEqual of checkLoopVariable, whose bound is
-   not established here: see TparseSafety.v for the exact statement). *)
+   Every lemma has the form [good P r] (= [post P r]): the call returns [Ok a]
+   with [P a]; no error of any kind.  The IsEqual inside checkLoopVariable is
+   bounded by [li_ok] (the value name of every loop in the chain contains neither
+   '>' nor '}') and [terminated] (a '>' or '}' stands at or after the compared
+   text), which TparseSafety.v maintains as part of the parser invariant. *)
 From Coq Require Import NArith ZArith List Bool Arith Lia ZifyBool ZifyNat ZifyN.
 From Qv Require Import gen.Tables_tmpl gen.Tables_expr gen.Tables_tparse FinderModel FinderProofs TparseModel.
 Import ListNotations.
 Ltac Zify.zify_post_hook ::= Z.div_mod_to_equations.
 
-(* outcome predicate: Ok with P, or the one error not excluded here *)
+(* outcome predicate: Ok with P (kept under two names: [post] for the callers of checkLoopVariable) *)
 Definition post {A} (P : A -> Prop) (r : res A) : Prop :=
-  match r with Ok a => P a | Error e => e = EOob 10 end.
+  match r with Ok a => P a | Error e => False end.
 (* outcome predicate of the scanners that are safe outright *)
 Definition good {A} (P : A -> Prop) (r : res A) : Prop :=
   match r with Ok a => P a | Error _ => False end.
@@ -21,7 +23,7 @@ Proof. intros A P [a|e] H; [exact H|destruct H]. Qed.
 
 Lemma post_bind : forall A B (Q : A -> Prop) (P : B -> Prop) (x : res A) (f : A -> res B),
   post Q x -> (forall a, Q a -> post P (f a)) -> post P (bind x f).
-Proof. intros A B Q P [a|e] f Hx Hf; cbn in *; [apply Hf; exact Hx|exact Hx]. Qed.
+Proof. intros A B Q P [a|e] f Hx Hf; cbn in *; [apply Hf; exact Hx|destruct Hx]. Qed.
 
 Lemma good_bind : forall A B (Q : A -> Prop) (P : B -> Prop) (x : res A) (f : A -> res B),
   good Q x -> (forall a, Q a -> good P (f a)) -> good P (bind x f).
@@ -42,6 +44,12 @@ Section Scanners.
   Lemma rd_good : forall site i, i < len -> good (fun _ => True) (rd content site i).
   Proof.
     intros site i Hi. unfold rd. destruct (nth_error content i) as [c|] eqn:E; [exact I|].
+    apply nth_error_None in E. lia.
+  Qed.
+
+  Lemma rd_val : forall site i, i < len -> good (fun c => nth_error content i = Some c) (rd content site i).
+  Proof.
+    intros site i Hi. unfold rd. destruct (nth_error content i) as [c|] eqn:E; [reflexivity|].
     apply nth_error_None in E. lia.
   Qed.
 
@@ -88,6 +96,20 @@ Section Scanners.
       + injection H as <-. exists ch. split; assumption.
   Qed.
 
+  (* every unit a skip loop passes satisfies its predicate *)
+  Lemma skip_while_all : forall site p fuel off e o,
+    skip_while content site p fuel off e = Ok o ->
+    forall i, off <= i < o -> exists ch, nth_error content i = Some ch /\ p ch = true.
+  Proof.
+    intros site p fuel; induction fuel as [|k IH]; intros off e o H i Hi.
+    - cbn [skip_while] in H. destruct (Nat.ltb_spec off e); [discriminate H|]. injection H as <-. lia.
+    - cbn [skip_while] in H. destruct (Nat.ltb_spec off e) as [Hlt|Hge]; [|injection H as <-; lia].
+      unfold rd in H. destruct (nth_error content off) as [ch|] eqn:E; [|discriminate H]. cbn [bind] in H.
+      destruct (p ch) eqn:Ep; [|injection H as <-; lia].
+      destruct (Nat.eq_dec i off) as [->|Hne]; [exists ch; split; assumption|].
+      apply (IH _ _ _ H). lia.
+  Qed.
+
   Lemma is_equal_at_good : forall site word off,
     off + length word <= len -> good (fun _ => True) (is_equal_at content site off word).
   Proof.
@@ -112,24 +134,46 @@ Section Subparsers.
   Ltac gbind X := apply good_bind with (Q := X).
   Ltac pbind X := apply post_bind with (Q := X).
 
-  Lemma rd10_post : forall i, post T (rd content 10 i).
-  Proof. intros i. unfold rd. destruct (nth_error content i); [exact I|reflexivity]. Qed.
+(* ---- checkLoopVariable ---- *)
+  Definition clean (c : N) : Prop := c <> 62%N /\ c <> 125%N.             (* neither '>' nor '}' *)
+  (* the value name of a loop: inside the text, without '>' and '}' *)
+  Definition li_ok (li : loopinfo) : Prop :=
+    forall k, k < N.to_nat (li_vlen li) ->
+      exists c, nth_error content (li_off li + N.to_nat (li_voff li) + k) = Some c /\ clean c.
+  (* a '>' or a '}' stands at or after position a *)
+  Definition terminated (a : nat) : Prop :=
+    exists q c, a <= q /\ nth_error content q = Some c /\ (c = 62%N \/ c = 125%N).
 
-  Lemma is_equal_cc_post : forall n a b, post T (is_equal_cc content 10 a b n).
+  Lemma is_equal_cc_good : forall n a b,
+    (forall k, k < n -> exists c, nth_error content (b + k) = Some c /\ clean c) -> terminated a ->
+    good T (is_equal_cc content 10 a b n).
   Proof.
-    intros n; induction n as [|k IH]; intros a b; [exact I|].
-    cbn [is_equal_cc]. pbind (fun _ : N => True); [apply rd10_post|]. intros x _.
-    pbind (fun _ : N => True); [apply rd10_post|]. intros y _.
-    destruct (N.eqb x y); [apply IH|exact I].
+    intros n; induction n as [|k IH]; intros a b Hb (q & c & Hq & Hc & Hnc); [exact I|].
+    cbn [is_equal_cc].
+    assert (Hql : q < len) by (apply nth_error_Some; rewrite Hc; discriminate).
+    gbind (fun x => nth_error content a = Some x); [apply rd_val; lia|]. intros x Hx.
+    destruct (Hb 0) as (y & Hy & Hcl); [lia|]. rewrite Nat.add_0_r in Hy.
+    assert (Hbl : b < len) by (apply nth_error_Some; rewrite Hy; discriminate).
+    gbind (fun y' => nth_error content b = Some y'); [apply rd_val; exact Hbl|]. intros y' Hy'.
+    rewrite Hy in Hy'. injection Hy' as <-.
+    destruct (N.eqb_spec x y) as [E|E]; [|exact I]. subst y.
+    apply IH.
+    - intros j Hj. destruct (Hb (S j)) as (z & Hz & Hzc); [lia|]. exists z. split; [|exact Hzc].
+      replace (S b + j) with (b + S j) by lia. exact Hz.
+    - exists q, c. split; [|split; assumption].
+      destruct (Nat.eq_dec a q) as [->|Hne]; [|lia].
+      rewrite Hx in Hc. injection Hc as ->. destruct Hcl as [C1 C2]. destruct Hnc; contradiction.
   Qed.
 
   Lemma check_loop_variable_post : forall chain v,
+    Forall li_ok chain -> terminated (v_off v) ->
     post (fun v' => v_off v' = v_off v /\ v_len v' = v_len v) (check_loop_variable content v chain).
   Proof.
-    intros chain; induction chain as [|l r IH]; intros v; [cbn; auto|].
-    cbn [check_loop_variable]. destruct (N.eqb (li_vlen l) 0); [apply IH|].
-    pbind (fun _ : bool => True); [apply is_equal_cc_post|]. intros b _.
-    destruct b; [cbn; auto|apply IH].
+    intros chain; induction chain as [|l r IH]; intros v Hch Ht; [cbn; auto|].
+    inversion Hch as [|? ? Hl Hr]; subst.
+    cbn [check_loop_variable]. destruct (N.eqb (li_vlen l) 0); [apply IH; assumption|].
+    pbind (fun _ : bool => True); [apply good_post, is_equal_cc_good; [exact Hl|exact Ht]|]. intros b _.
+    destruct b; [cbn; auto|apply IH; assumption].
   Qed.
 
   (* ---- parseIfCase ---- *)
@@ -164,26 +208,39 @@ Section Subparsers.
   Lemma lsame_trans : forall a b c, lsame a b -> lsame b c -> lsame a c.
   Proof. unfold lsame. intros a b c (?&?&?&?&?) (?&?&?&?&?). repeat split; congruence. Qed.
 
-  Lemma set_attr_post : forall l att att_offset offset,
-    l_off l <= att_offset -> att_offset <= offset -> att_offset < len ->
-    post (lsame l) (set_attr content l att att_offset offset).
+Definition vreg (e : nat) (l : looprec) : Prop :=
+    N.to_nat (l_voff l) + N.to_nat (l_vlen l) <= e - l_off l.
+
+  Arguments vreg e l : simpl never.
+
+  Lemma t8_le : forall x, N.to_nat (t8 x) <= x.
+  Proof. intros x. unfold t8. lia. Qed.
+
+  Lemma set_attr_post : forall l att att_offset offset e,
+    l_off l <= att_offset -> att_offset <= offset -> att_offset < len -> offset <= e ->
+    Forall li_ok (l_parent l) -> terminated att_offset -> vreg e l ->
+    post (fun l' => lsame l l' /\ vreg e l') (set_attr content l att att_offset offset).
   Proof.
-    intros l att ao o H1 H2 H3. unfold set_attr.
-    destruct att as [|[[|[]|]|[[]|[]|]|]]; try (cbn; apply lsame_refl).
+    intros l att ao o e H1 H2 H3 H4 Hp Ht Hv. unfold set_attr.
+    destruct att as [|[[|[]|]|[[]|[]|]|]]; try (cbn; split; [apply lsame_refl|exact Hv]).
     - (* 3 Sort *)
-      apply good_post. gbind (fun _ : N => True); [apply rd_good; lia|]. intros ch _. cbn. unfold lsame; cbn; auto.
-    - (* 2 Value *)
-      apply good_post. gbind (fun _ : nat => True); [eapply good_weaken; [apply csub_good; lia|auto]|]. intros d1 _.
-      gbind (fun _ : nat => True); [eapply good_weaken; [apply csub_good; lia|auto]|]. intros d2 _.
-      cbn. unfold lsame; cbn; auto.
-    - (* 4 Group *)
-      apply good_post. gbind (fun _ : nat => True); [eapply good_weaken; [apply csub_good; lia|auto]|]. intros d1 _.
-      gbind (fun _ : nat => True); [eapply good_weaken; [apply csub_good; lia|auto]|]. intros d2 _.
-      cbn. unfold lsame; cbn; auto.
+      apply good_post. gbind (fun _ : N => True); [apply rd_good; lia|]. intros ch _. cbn [post good]. split; [unfold lsame; cbn; auto|exact Hv].
+    - (* 2 Value / 4 Group *)
+      apply good_post. gbind (fun d => d = ao - l_off l); [apply csub_good; lia|]. intros d1 ->.
+      gbind (fun d => d = o - ao); [apply csub_good; lia|]. intros d2 ->.
+      cbn [good]. split; [unfold lsame; cbn; auto|]. unfold vreg in *. cbn [l_voff l_vlen l_off].
+      pose proof (t8_le (ao - l_off l)) as Ha. pose proof (t8_le (o - ao)) as Hb.
+      revert Ha Hb. generalize (N.to_nat (t8 (ao - l_off l))) (N.to_nat (t8 (o - ao))). intros a b Ha Hb. lia.
+    - (* 4 Group / 2 Value *)
+      apply good_post. gbind (fun d => d = ao - l_off l); [apply csub_good; lia|]. intros d1 ->.
+      gbind (fun d => d = o - ao); [apply csub_good; lia|]. intros d2 ->.
+      cbn [good]. split; [unfold lsame; cbn; auto|]. unfold vreg in *. cbn [l_voff l_vlen l_off].
+      pose proof (t8_le (ao - l_off l)) as Ha. pose proof (t8_le (o - ao)) as Hb.
+      revert Ha Hb. generalize (N.to_nat (t8 (ao - l_off l))) (N.to_nat (t8 (o - ao))). intros a b Ha Hb. lia.
     - (* 1 Set *)
       pbind (fun _ : nat => True); [apply good_post; eapply good_weaken; [apply csub_good; lia|auto]|]. intros d _.
-      pbind (fun _ : vtag => True); [eapply post_weaken; [apply check_loop_variable_post|auto]|]. intros v _.
-      cbn. unfold lsame; cbn; auto.
+      pbind (fun _ : vtag => True); [eapply post_weaken; [apply check_loop_variable_post; [exact Hp|exact Ht]|auto]|]. intros v _.
+      cbn [post good]. split; [unfold lsame; cbn; auto|exact Hv].
   Qed.
 
   Lemma loop_attr_name_good : forall offset e att, offset < e -> e <= len ->
@@ -200,11 +257,13 @@ Section Subparsers.
         gbind (fun _ : bool => True); [apply word_at_good; lia|]. intros b _. destruct b; cbn; lia.
   Qed.
 
-  Lemma loop_attrs_post : forall fuel offset e att l,
+Lemma loop_attrs_post : forall fuel offset e att l,
     e < len -> l_off l <= offset -> e - offset < fuel ->
-    post (lsame l) (loop_attrs content fuel offset e att l).
+    Forall li_ok (l_parent l) -> nth_error content e = Some 62%N -> vreg e l ->
+    post (fun l' => lsame l l' /\ vreg e l') (loop_attrs content fuel offset e att l).
   Proof.
-    intros fuel; induction fuel as [|f IH]; intros offset e att l He Hl Hf; [lia|].
+    intros fuel; induction fuel as [|f IH]; intros offset e att l He Hl Hf Hp Hgt Hv; [lia|].
+    assert (Hrefl : lsame l l /\ vreg e l) by (split; [apply lsame_refl|exact Hv]).
     cbn [loop_attrs].
     pbind (fun o => offset <= o /\ (o <= e \/ o = offset)); [apply good_post, skip_eq_good; lia|]. intros o1 H1.
     pbind (fun r : option (nat * N) => match r with None => o1 < e | Some (o, _) => o1 <= o end).
@@ -214,20 +273,25 @@ Section Subparsers.
     intros [[o2 att2]|] H2.
     - pbind (fun o => o2 <= o); [apply good_post; eapply good_weaken; [apply skip_ne_good; lia|cbn; intros; lia]|]. intros o3 H3.
       pbind (fun o => S o3 <= o); [apply good_post; eapply good_weaken; [apply skip_eq_do_good; lia|cbn; intros; lia]|]. intros o4 H4.
-      destruct (Nat.ltb_spec o4 e) as [Hlt|Hge]; [|cbn; apply lsame_refl].
+      destruct (Nat.ltb_spec o4 e) as [Hlt|Hge]; [|exact Hrefl].
       pbind (fun _ : N => True); [apply good_post, rd_good; lia|]. intros quote _.
-      pbind (fun o => S o4 <= o); [apply good_post; eapply good_weaken; [apply skip_ne_do_good; lia|cbn; intros; lia]|]. intros o5 H5.
-      pbind (lsame l); [apply set_attr_post; lia|]. intros l' Hl'.
-      destruct (Nat.ltb_spec (S o5) e) as [Hlt2|Hge2]; [|exact Hl'].
-      eapply post_weaken; [apply IH; [exact He|destruct Hl' as [E _]; rewrite E; lia|lia]|].
-      intros l'' Hl''. eapply lsame_trans; eassumption.
-    - destruct (Nat.ltb_spec (S o1) e) as [Hlt|Hge]; [|cbn; apply lsame_refl].
-      apply IH; [exact He|lia|lia].
+      pbind (fun o => S o4 <= o /\ o <= e); [apply good_post; eapply good_weaken; [apply skip_ne_do_good; lia|cbn; intros; lia]|]. intros o5 H5.
+      pbind (fun l' => lsame l l' /\ vreg e l').
+      { apply set_attr_post with (e := e); try lia; try assumption.
+        exists e, 62%N. split; [lia|split; [exact Hgt|left; reflexivity]]. }
+      intros l' [Hl' Hv'].
+      destruct (Nat.ltb_spec (S o5) e) as [Hlt2|Hge2]; [|split; assumption].
+      destruct Hl' as (E1 & E2 & E3 & E4 & E5).
+      eapply post_weaken; [apply IH; [exact He|rewrite E1; lia|lia|rewrite E5; exact Hp|exact Hgt|exact Hv']|].
+      intros l'' [Hl'' Hv'']. split; [eapply lsame_trans; [|exact Hl'']; unfold lsame; auto|exact Hv''].
+    - destruct (Nat.ltb_spec (S o1) e) as [Hlt|Hge]; [|exact Hrefl].
+      apply IH; try assumption; lia.
   Qed.
 
   Lemma parse_loop_attributes_post : forall e l, e < len ->
-    post (lsame l) (parse_loop_attributes content e l).
-  Proof. intros e l He. unfold parse_loop_attributes. apply loop_attrs_post; [exact He|lia|lia]. Qed.
+    Forall li_ok (l_parent l) -> nth_error content e = Some 62%N -> vreg e l ->
+    post (fun l' => lsame l l' /\ vreg e l') (parse_loop_attributes content e l).
+  Proof. intros e l He Hp Hgt Hv. unfold parse_loop_attributes. apply loop_attrs_post; try assumption; lia. Qed.
 
   (* ---- the attribute scanner of an inline if ---- *)
   Definition isame (i i' : iifrec) : Prop := i_off i' = i_off i /\ i_len i' = i_len i.
@@ -351,46 +415,53 @@ Section Subparsers.
   Variable numf : list N -> N * N * nat.
 
   Lemma parse_expr_post : forall n,
-    (forall off e chain, e < len -> 3 * (e - off) + 2 <= n -> post T (parse_expressions numf content n off e chain)) /\
-    (forall off e chain acc last, e < len -> 3 * (e - off) + 1 <= n -> post T (pe_loop numf content n off e chain acc last)) /\
-    (forall oper last off e chain acc, e < len -> 1 <= n -> 3 * (e - off) <= n ->
+    (forall off e chain, Forall li_ok chain -> e < len -> 3 * (e - off) + 2 <= n ->
+       post T (parse_expressions numf content n off e chain)) /\
+    (forall off e chain acc last, Forall li_ok chain -> e < len -> 3 * (e - off) + 1 <= n ->
+       post T (pe_loop numf content n off e chain acc last)) /\
+    (forall oper last off e chain acc, Forall li_ok chain -> e < len -> 1 <= n -> 3 * (e - off) <= n ->
        post T (parse_value numf content n oper last off e chain acc)).
   Proof.
     intros n; induction n as [|f IH]; [repeat split; intros; lia|].
     destruct IH as (IHx & IHl & IHv).
     repeat split.
-    - intros off e chain He Hf. cbn [parse_expressions]. apply IHl; [exact He|lia].
-    - intros off e chain acc last He Hf. cbn [pe_loop].
+    - intros off e chain Hch He Hf. cbn [parse_expressions]. apply IHl; [exact Hch|exact He|lia].
+    - intros off e chain acc last Hch He Hf. cbn [pe_loop].
       destruct (Nat.ltb_spec off e) as [Hlt|Hge]; [|destruct (e <? off); exact I].
       pbind (fun r : N * nat => off <= snd r /\ (snd r <= e \/ snd r = off));
         [apply good_post, get_operation_good; [exact He|lia]|].
       intros [oper off2] H2. cbn [fst snd] in *.
       destruct (N.eqb oper op_Error); [exact I|].
-      pbind (fun _ : option (list qexpr) => True); [apply IHv; [lia|lia|lia]|].
+      pbind (fun _ : option (list qexpr) => True); [apply IHv; [exact Hch|lia|lia|lia]|].
       intros [acc'|] _; [|exact I].
-      apply IHl; [exact He|]. destruct (N.ltb oper op_Greater); lia.
-    - intros oper last off e chain acc He H1 Hf. cbn [parse_value].
+      apply IHl; [exact Hch|exact He|]. destruct (N.ltb oper op_Greater); lia.
+    - intros oper last off e chain acc Hch He H1 Hf. cbn [parse_value].
       pbind (fun o => off <= o /\ (o <= e \/ o = off)); [apply good_post, skip_while_good; lia|]. intros o1 Ho1.
       pbind (fun e' => e' <= e /\ (o1 <= e' \/ e' = e)); [apply good_post, trim_right_good; lia|]. intros e1 He1.
       destruct (Nat.ltb_spec o1 e1) as [Hlt|Hge]; [|exact I].
       pbind (fun _ : N => True); [apply good_post, rd_good; lia|]. intros ch _.
       destruct (N.eqb ch sym_ParenStart).
-      + pbind (fun _ : list qexpr => True); [apply IHx; [lia|lia]|]. intros sub _.
+      + pbind (fun _ : list qexpr => True); [apply IHx; [exact Hch|lia|lia]|]. intros sub _.
         destruct (negb (N.eqb last oper) || negb (N.eqb oper op_NoOp)); destruct sub; exact I.
       + destruct (N.eqb ch sym_BracketStart).
-        * destruct (tpp_VariableFullLength <? e1 - o1); [|exact I].
-          pbind (fun _ : N => True); [apply good_post, rd_good; unfold tpp_InLineSuffixLength; lia|]. intros lastc _.
-          destruct (N.eqb lastc tpp_InLineLastChar); [|exact I].
-          pbind (fun _ : vtag => True); [eapply post_weaken; [apply check_loop_variable_post|auto]|]. intros v _. exact I.
+        * destruct (Nat.ltb_spec tpp_VariableFullLength (e1 - o1)) as [Hvl|Hvl]; [|exact I].
+          unfold tpp_VariableFullLength in Hvl.
+          pbind (fun c => nth_error content (e1 - tpp_InLineSuffixLength) = Some c);
+            [apply good_post, rd_val; unfold tpp_InLineSuffixLength; lia|]. intros lastc Hlast.
+          destruct (N.eqb_spec lastc tpp_InLineLastChar) as [El|El]; [|exact I].
+          pbind (fun _ : vtag => True); [eapply post_weaken; [apply check_loop_variable_post; [exact Hch|]|auto]|].
+          { cbn [v_off]. exists (e1 - tpp_InLineSuffixLength), lastc.
+            split; [unfold tpp_InLineSuffixLength, tpp_VariablePrefixLength; lia|split; [exact Hlast|right; exact El]]. }
+          intros v _. exact I.
         * destruct (numf (slice content o1 e1)) as [[kind bits] used].
           destruct (negb (N.eqb kind 0) && (o1 + used =? e1)); [exact I|].
           match goal with |- post _ (if ?c then _ else _) => destruct c end; exact I.
   Qed.
 
-  Lemma pexpr_post : forall off e chain, e < len \/ e <= off -> post T (pexpr numf content off e chain).
+  Lemma pexpr_post : forall off e chain, Forall li_ok chain -> e < len \/ e <= off -> post T (pexpr numf content off e chain).
   Proof.
-    intros off e chain [H|H].
-    - unfold pexpr. apply (proj1 (parse_expr_post _)); [exact H|lia].
+    intros off e chain Hch [H|H].
+    - unfold pexpr. apply (proj1 (parse_expr_post _)); [exact Hch|exact H|lia].
     - unfold pexpr. replace (e - off) with 0 by lia. change (3 * 0 + 4) with 4.
       cbn [parse_expressions pe_loop].
       destruct (Nat.ltb_spec off e); [lia|]. destruct (e <? off); exact I.
